@@ -95,4 +95,29 @@ theorem C07_restart_extracted (cs : List Cycle) (sh : Bool) :
   rw [exit_life_params_repaired]
   exact (C07_start_after_cycles_runs cs sh).1
 
+/-- stop / normal exit / handled signal at every point of every program, for the facts and the handler as extracted -/
+theorem C07_program_extracted (ops : List POp) (hne : noExit ops = true) :
+    ((Sys.run Extracted.lifeParams {} ops).life.running = true →
+      (Sys.run Extracted.lifeParams {} (ops ++ [.life .stop])).fe = { queue := [], written := logged ops }) ∧
+    (Sys.run Extracted.lifeParams {} (ops ++ [.life .exit])).fe = { queue := [], written := logged ops } ∧
+    (∀ (thread : Nat) (s : Sig) (pr : Bool), s ∈ Extracted.catchableDefault →
+      (Sys.run Extracted.lifeParams {} ops).life.ctxTid ≠ 0 → thread ≠ (Sys.run Extracted.lifeParams {} ops).life.workerTid →
+      exec ((Sys.run Extracted.lifeParams {} ops).life.env true true) s
+          (Extracted.onSignalProg.actions ((Sys.run Extracted.lifeParams {} ops).life.ctx thread s true pr true true))
+          false false (Sys.run Extracted.lifeParams {} ops).fe =
+        ({ queue := [], written := logged ops ++ (if s.graceful then [.notice] else [.notice, .critical]) },
+         if s.graceful then .exit0 else .diedBy s)) := by
+  rw [exit_life_params_repaired]
+  refine ⟨fun hrun => ?_, ?_, fun thread s pr _ hctx hthr => ?_⟩
+  · obtain ⟨h1, h2, _⟩ := C07_stop_writes_everything ops hne hrun
+    generalize (Sys.run LParams.repaired {} (ops ++ [.life .stop])).fe = f at h1 h2
+    cases f; simp_all
+  · obtain ⟨h1, h2, _⟩ := C07_exit_writes_everything ops hne
+    generalize (Sys.run LParams.repaired {} (ops ++ [.life .exit])).fe = f at h1 h2
+    cases f; simp_all
+  · rw [exit_onSignal_agrees]
+    have := C07_program_signal ops hne thread s pr true true hctx hthr
+    rw [this]
+    cases hg : s.graceful <;> simp [notices, Life.env, hg]
+
 end Obligations
